@@ -31,6 +31,8 @@ pub fn udp_socket(
             SockFlag::empty(),
             SockProtocol::Udp,
         )?;
+        // owned from here on: every `?` below used to leave the descriptor open for the life of the process
+        let owner = unsafe { std::net::UdpSocket::from_raw_fd(fd) };
         // address sharing is what lets a session socket sit on the listener's own address. With port 0 it
         // would let the kernel hand the same ephemeral port to two sockets that both ask for sharing: two
         // sessions talking to one destination then own the same 4-tuple and one gets the other's replies.
@@ -55,7 +57,7 @@ pub fn udp_socket(
             connect(fd, &remote)?;
         }
 
-        unsafe { std::net::UdpSocket::from_raw_fd(fd) }
+        owner
     };
 
     #[cfg(windows)]
